@@ -66,8 +66,58 @@ pub fn guarded<F: FnOnce() -> String>(f: F) -> String {
 
 pub static PROGRESS: AtomicU64 = AtomicU64::new(0);
 
+thread_local! {
+    /// ids of the node values released so far (drop-counting payload of the `own` channel)
+    pub static RELEASED: RefCell<Vec<i64>> = RefCell::new(Vec::new());
+}
+
+/// node value that logs its release; clones made by the library are not counted
+pub struct Tok {
+    pub id: i64,
+    counted: bool,
+}
+impl Tok {
+    pub fn new(id: i64) -> Tok {
+        Tok { id, counted: true }
+    }
+}
+impl Clone for Tok {
+    fn clone(&self) -> Tok {
+        Tok { id: self.id, counted: false }
+    }
+}
+impl Drop for Tok {
+    fn drop(&mut self) {
+        if self.counted {
+            RELEASED.with(|r| r.borrow_mut().push(self.id));
+        }
+    }
+}
+impl PartialEq for Tok {
+    fn eq(&self, o: &Tok) -> bool {
+        self.id == o.id
+    }
+}
+impl Eq for Tok {}
+impl PartialOrd for Tok {
+    fn partial_cmp(&self, o: &Tok) -> Option<std::cmp::Ordering> {
+        Some(self.id.cmp(&o.id))
+    }
+}
+impl Ord for Tok {
+    fn cmp(&self, o: &Tok) -> std::cmp::Ordering {
+        self.id.cmp(&o.id)
+    }
+}
+
+
 mod d {
     pub const FLAVOUR: &str = "digraph";
+    macro_rules! edge_nth { ($n:expr, $p:expr) => { $n.iter_out().nth($p) }; }
+    macro_rules! pre_nodes { ($n:expr) => { $n.preorder().search_nodes() }; }
+    macro_rules! post_nodes { ($n:expr) => { $n.postorder().search_nodes() }; }
+    macro_rules! deg { ($n:expr) => { $n.out_degree() + $n.in_degree() }; }
+
     macro_rules! dot_attr {
         ($g:expr, $ga:expr, $na:expr, $ea:expr) => {{
             let (ga, na, ea) = ($ga, $na, $ea);
@@ -94,9 +144,15 @@ mod d {
     #[allow(unused_imports)]
     use gdsl::digraph::*;
     include!("directed.rs");
+    include!("own.rs");
 }
 mod sd {
     pub const FLAVOUR: &str = "sync_digraph";
+    macro_rules! edge_nth { ($n:expr, $p:expr) => { $n.iter_out().nth($p) }; }
+    macro_rules! pre_nodes { ($n:expr) => { $n.preorder().search_nodes() }; }
+    macro_rules! post_nodes { ($n:expr) => { $n.postorder().search_nodes() }; }
+    macro_rules! deg { ($n:expr) => { $n.out_degree() + $n.in_degree() }; }
+
     macro_rules! dot_attr {
         ($g:expr, $ga:expr, $na:expr, $ea:expr) => {{
             let (ga, na, ea) = ($ga, $na, $ea);
@@ -123,9 +179,15 @@ mod sd {
     #[allow(unused_imports)]
     use gdsl::sync_digraph::*;
     include!("directed.rs");
+    include!("own.rs");
 }
 mod u {
     pub const FLAVOUR: &str = "ungraph";
+    macro_rules! edge_nth { ($n:expr, $p:expr) => { $n.iter().nth($p) }; }
+    macro_rules! pre_nodes { ($n:expr) => { $n.order().pre().search_nodes() }; }
+    macro_rules! post_nodes { ($n:expr) => { $n.order().post().search_nodes() }; }
+    macro_rules! deg { ($n:expr) => { $n.degree() }; }
+
     macro_rules! dot_attr {
         ($g:expr, $ga:expr, $na:expr, $ea:expr) => {{
             let (ga, na, ea) = ($ga, $na, $ea);
@@ -152,9 +214,15 @@ mod u {
     #[allow(unused_imports)]
     use gdsl::ungraph::*;
     include!("undirected.rs");
+    include!("own.rs");
 }
 mod su {
     pub const FLAVOUR: &str = "sync_ungraph";
+    macro_rules! edge_nth { ($n:expr, $p:expr) => { $n.iter().nth($p) }; }
+    macro_rules! pre_nodes { ($n:expr) => { $n.order().pre().search_nodes() }; }
+    macro_rules! post_nodes { ($n:expr) => { $n.order().post().search_nodes() }; }
+    macro_rules! deg { ($n:expr) => { $n.degree() }; }
+
     macro_rules! dot_attr {
         ($g:expr, $ga:expr, $na:expr, $ea:expr) => {{
             let _ = ($g, $ga, $na, $ea);
@@ -165,6 +233,7 @@ mod su {
     #[allow(unused_imports)]
     use gdsl::sync_ungraph::*;
     include!("undirected.rs");
+    include!("own.rs");
 }
 
 fn run_flavour(flavour: &str, cases: &[Case], out: &mut dyn Write, panics: &mut dyn Write, start: usize) {
@@ -188,11 +257,16 @@ fn run_flavour(flavour: &str, cases: &[Case], out: &mut dyn Write, panics: &mut 
             }
             writeln!(out, "{} {}", si, s).unwrap();
         };
-        match flavour {
-            "digraph" => d::run_case(case, &mut sink),
-            "sync_digraph" => sd::run_case(case, &mut sink),
-            "ungraph" => u::run_case(case, &mut sink),
-            "sync_ungraph" => su::run_case(case, &mut sink),
+        let own = case.name.starts_with("own");
+        match (flavour, own) {
+            ("digraph", false) => d::run_case(case, &mut sink),
+            ("sync_digraph", false) => sd::run_case(case, &mut sink),
+            ("ungraph", false) => u::run_case(case, &mut sink),
+            ("sync_ungraph", false) => su::run_case(case, &mut sink),
+            ("digraph", true) => d::own::run_case(case, &mut sink),
+            ("sync_digraph", true) => sd::own::run_case(case, &mut sink),
+            ("ungraph", true) => u::own::run_case(case, &mut sink),
+            ("sync_ungraph", true) => su::own::run_case(case, &mut sink),
             _ => panic!("unknown flavour"),
         }
         // marks a completed case (used to resume after a hang)
